@@ -82,7 +82,67 @@ def run(ctx) -> None:
                                "iteration numbers are compared as strings: with 10 or more iterations '9' sorts after '10' "
                                "and '11', so the 'latest' / ordered instances are wrong (sibling sites use int())",
                                construct="%s key=%s" % (cn or "sort", short(b, 100)))
-    ctx.floor("C05.R1-numeric-iteration-order", n_sites, 4, "ordering constructs keyed on the iteration prefix")
+    ctx.floor("C05.R1-numeric-iteration-order", n_sites, 2, "ordering constructs keyed on the iteration prefix")
+
+    # R1b: collections of looped instances must not be ordered as plain strings (keyless sorted/sort)
+    LOOPED_COLLECTIONS = {"matched_components", "matched_refs", "represents", "condition_instances", "all_looped_ids", "loop_ids",
+                          "looped_ids", "remaining_looped_ids"}
+    for m in mods:
+        for q, fn in m.functions.items():
+            for c in source.calls_in(fn, include_nested=False):
+                cn = call_name(c) or ""
+                keyless = not any(k.arg == "key" for k in c.keywords)
+                target = None
+                if cn == "sorted" and c.args and keyless:
+                    target = c.args[0]
+                elif last_attr(c) == "sort" and isinstance(c.func, ast.Attribute) and keyless and cn != "sorted":
+                    target = c.func.value
+                if target is None:
+                    continue
+                if set(source.names_in(target)) & LOOPED_COLLECTIONS:
+                    ctx.ob("C05.R1-numeric-iteration-order", c, False,
+                           "a collection of looped component instances is ordered as plain strings (%s): '10#x' sorts before '2#x', so "
+                           "with 10 or more iterations the instances are not in iteration order" % short(c, 70))
+    # R1c: the aggregate loop reference expands its instances in numeric iteration order - ordered by the consumer
+    # (looped_reference_to_paths) or, failing that, by the producer of placeholder['represents']
+    g0 = ctx.repo.module(GRAPH)
+    lrp = g0.functions.get("DataReference.resolve.looped_reference_to_paths")
+    ctx.require(lrp is not None, "anchor missing: DataReference.resolve.looped_reference_to_paths")
+    ctx.analysed(lrp)
+
+    def numeric_sorted(e: ast.AST) -> bool:
+        if isinstance(e, (ast.ListComp, ast.GeneratorExp)) and len(e.generators) == 1 and not e.generators[0].ifs:
+            return numeric_sorted(e.generators[0].iter)
+        if isinstance(e, ast.Call) and call_name(e) in ("list", "tuple") and e.args:
+            return numeric_sorted(e.args[0])
+        if isinstance(e, ast.Call) and call_name(e) == "sorted":
+            keys = [k.value for k in e.keywords if k.arg == "key"]
+            for key in keys:
+                body = key.body if isinstance(key, ast.Lambda) else key
+                pref = [n for n in ast.walk(body) if is_iteration_prefix(n)]
+                if pref and all(wrapped_in_int(p_, body) for p_ in pref):
+                    return True
+        return False
+    loops = [n for n in source.walk_own(lrp) if isinstance(n, ast.For) and isinstance(n.iter, ast.Name)
+             and any(last_attr(c) == "append" and dotted(c.func.value) == "agg_references" for c in source.calls_in(n))]
+    ctx.require(bool(loops), "anchor missing: loop building agg_references in looped_reference_to_paths")
+    itname = loops[0].iter.id
+    consumer_sorts = any(numeric_sorted(v) for v in match.assigned_value(lrp, itname))
+    producer_sorts = False
+    ddp = g0.func("WorkflowGraph._discover_dowhile_placeholders")
+    for n in source.walk_own(ddp):
+        if isinstance(n, ast.Dict):
+            for k, v in zip(n.keys, n.values):
+                if isinstance(k, ast.Constant) and k.value == "represents":
+                    vals = [v] + (match.assigned_value(ddp, v.id) if isinstance(v, ast.Name) else [])
+                    producer_sorts = any(numeric_sorted(x) for x in vals)
+    ok = consumer_sorts or producer_sorts
+    ctx.ob("C05.R1-numeric-iteration-order", loops[0], ok,
+           "aggregate loop references expand their instances in numeric iteration order (sorted by %s)" % ("the consumer" if consumer_sorts else "the producer of 'represents'")
+           if ok else
+           "neither looped_reference_to_paths nor the producer of placeholder['represents'] orders the instances numerically: an "
+           "aggregate loop reference (:loopref/:loopoutput) lists iterations as 0,1,10,11,2,... once there are 10 or more",
+           construct="agg_references iterate %s in numeric iteration order" % itname)
 
     # ---------------- R2 -------------------------------------------------------------------------------
     n_fmt = 0
